@@ -48,6 +48,8 @@ import (
 	"github.com/Cloud-Foundations/keymaster/lib/certgen"
 	"github.com/Cloud-Foundations/keymaster/lib/instrumentedwriter"
 	"github.com/Cloud-Foundations/keymaster/lib/webapi/v0/proto"
+	"github.com/duo-labs/webauthn/webauthn"
+	"github.com/fxamacker/cbor/v2"
 	"github.com/go-jose/go-jose/v4/jwt"
 	"github.com/pquerna/otp/totp"
 	"github.com/tstranex/u2f"
@@ -179,32 +181,189 @@ type c06Shape struct {
 	basicUser   string // non-empty: verified password of this user
 	hasTLS      bool
 	certUser    string
-	kmCert      bool // verified chain to the main CA, key not denied, CN non-empty
+	kmCert      bool // verified chain to the main CA, CN non-empty (whether the key is deny-listed depends on the list: keyID)
+	keyID       int  // which key the leaf certifies: c06KeyMain or c06KeyDenied
 	ipCert      bool // address extension contains the TCP peer, automation identity
 	apply       func(r *http.Request)
+	combo       bool // generated combination of several credentials
+	routeProbe  bool // combination that is also sent through every route (the others only to checkAuth)
+	denySweep   bool // probed under every deny list of the enumeration
+}
+
+// key fingerprints as the model sees them: small numbers
+const (
+	c06KeyMain   = 1 // mat.keys
+	c06KeyDenied = 2 // mat.deniedKeys (on the deny list of the generated configuration)
+	c06KeyFiller = 3 // 3..6: fingerprints of keys nobody presents
+)
+
+// a deny list of the enumeration: the fingerprints for the configuration and the model's numbers
+type c06Deny struct {
+	name string
+	fps  []string
+	ids  []int
+}
+
+func (d *c06Deny) has(id int) bool {
+	for _, x := range d.ids {
+		if x == id {
+			return true
+		}
+	}
+	return false
+}
+
+func (d *c06Deny) coq() string {
+	var xs []string
+	for _, x := range d.ids {
+		xs = append(xs, fmt.Sprint(x))
+	}
+	return "[" + strings.Join(xs, "; ") + "]"
+}
+
+// index 0: the list of the generated configuration file (the denied key in the middle of three
+// entries); then every list of length 0..4 with the presented key at every subset of positions
+// (so: absent, first, middle, last, duplicated), the other positions holding distinct other keys;
+// then a few that hold the second key
+func c06DenyLists(m *c06Material) []c06Deny {
+	fp := func(id int) string {
+		switch id {
+		case c06KeyMain:
+			return m.fpMain
+		case c06KeyDenied:
+			return m.fpDenied
+		}
+		return m.fpFiller[id-c06KeyFiller]
+	}
+	mk := func(name string, ids ...int) c06Deny {
+		d := c06Deny{name: name, ids: ids}
+		for _, id := range ids {
+			d.fps = append(d.fps, fp(id))
+		}
+		return d
+	}
+	out := []c06Deny{mk("config", c06KeyFiller, c06KeyDenied, c06KeyFiller+1)}
+	for n := 0; n <= 4; n++ {
+		for bits := 0; bits < 1<<uint(n); bits++ {
+			var ids []int
+			name := fmt.Sprintf("len%d:", n)
+			for i := 0; i < n; i++ {
+				if bits&(1<<uint(i)) != 0 {
+					ids = append(ids, c06KeyMain)
+					name += "P"
+				} else {
+					ids = append(ids, c06KeyFiller+i)
+					name += "o"
+				}
+			}
+			out = append(out, mk(name, ids...))
+		}
+	}
+	out = append(out, mk("second:Do", c06KeyDenied, c06KeyFiller), mk("second:oD", c06KeyFiller, c06KeyDenied),
+		mk("second:oDo", c06KeyFiller, c06KeyDenied, c06KeyFiller+1), mk("both:PD", c06KeyMain, c06KeyDenied), mk("both:DP", c06KeyDenied, c06KeyMain),
+		mk("second:DD", c06KeyDenied, c06KeyDenied))
+	return out
+}
+
+// quick tier: the lists sent through the routes (all of them go to checkAuth directly)
+func c06DenyRouteSubset(lists []c06Deny) []int {
+	want := map[string]bool{"len0:": true, "len1:P": true, "len1:o": true, "len2:Po": true, "len2:oP": true, "len2:PP": true, "len2:oo": true,
+		"len3:oPo": true, "len3:ooP": true, "len3:Poo": true, "len4:oooP": true, "len4:oPoo": true, "len4:oooo": true, "len4:PooP": true}
+	var out []int
+	for i, l := range lists {
+		if want[l.name] {
+			out = append(out, i)
+		}
+	}
+	return out
+}
+
+// The enumerated deny lists are put in force by assigning the configuration field between calls.
+// That only works while the code reads the field at call time: the key that the configuration
+// file denies (loaded through the YAML path) must be refused under that list and let in once the
+// field is emptied.  If emptying the field changes nothing the sweeps are skipped (and said so).
+func c06DenyAssignable(p *c06Prober) bool {
+	for si := range p.shapes {
+		s := &p.shapes[si]
+		if s.name != "cert-km-denied-key" {
+			continue
+		}
+		try := func(dl int) bool {
+			p.setDeny(dl)
+			defer p.setDeny(0)
+			req := verifNewRequest("GET", "/probe", nil)
+			s.apply(req)
+			ai, err := p.env.state.checkAuth(httptest.NewRecorder(), req, AuthTypeKeymasterX509)
+			return err == nil && ai != nil
+		}
+		empty := -1
+		for i, d := range p.denies {
+			if len(d.ids) == 0 {
+				empty = i
+			}
+		}
+		if empty < 0 {
+			return true
+		}
+		return try(0) || try(empty)
+	}
+	return true
+}
+
+func (p *c06Prober) setDeny(i int) {
+	p.deny = i
+	p.env.state.Config.DenyTrustData.KeyDenyFPsshSha256 = append([]string(nil), p.denies[i].fps...)
+}
+
+// the coarse class of a shape under a deny list (goes into oracle keys)
+func (s *c06Shape) classFor(d *c06Deny) string {
+	if s.hasTLS && s.kmCert && d.has(s.keyID) {
+		return strings.Replace(s.class, s.certClass(), "cert-denied", 1)
+	}
+	return s.class
+}
+
+func (s *c06Shape) certClass() string {
+	for _, part := range strings.Split(s.class, "+") {
+		if strings.HasPrefix(part, "cert-") {
+			return part
+		}
+	}
+	return s.class
 }
 
 type c06Material struct {
 	keys, deniedKeys *verifKeys
+	fpMain, fpDenied string
+	fpFiller         []string
 	foreignCA        *x509.Certificate
 	foreignKey       *ecdsa.PrivateKey
 	now              int64
 }
 
+// a request whose only further credential is this cookie
 func c06Token(trusted, alg, tampered, iss, aud bool, kind int, nbf, exp, iat int64, sub, level int) string {
-	return fmt.Sprintf("(Cookie {| t_signer_trusted := %s; t_alg_allowed := %s; t_tampered := %s; t_iss_ok := %s; t_aud_ok := %s; t_kind := %d; t_nbf := %s; t_exp := %s; t_iat := %s; t_sub := %d; t_level := %d |})",
+	return "(ck " + c06Tok(trusted, alg, tampered, iss, aud, kind, nbf, exp, iat, sub, level) + " None)"
+}
+
+func c06Tok(trusted, alg, tampered, iss, aud bool, kind int, nbf, exp, iat int64, sub, level int) string {
+	return fmt.Sprintf("({| t_signer_trusted := %s; t_alg_allowed := %s; t_tampered := %s; t_iss_ok := %s; t_aud_ok := %s; t_kind := %d; t_nbf := %s; t_exp := %s; t_iat := %s; t_sub := %d; t_level := %d |})",
 		coqBool(trusted), coqBool(alg), coqBool(tampered), coqBool(iss), coqBool(aud), kind, coqZ(nbf), coqZ(exp), coqZ(iat), sub, level)
 }
 
 type c06Chain struct{ len2, role, trusted bool }
 
 func c06TLS(chains []c06Chain, cn int, denied bool, nb int64, ipErr, ipValid, automation bool) string {
+	key := c06KeyMain
+	if denied {
+		key = c06KeyDenied
+	}
 	var cs []string
 	for _, c := range chains {
 		cs = append(cs, fmt.Sprintf("{| ch_len2 := %s; ch_role_ca := %s; ch_key_trusted := %s |}", coqBool(c.len2), coqBool(c.role), coqBool(c.trusted)))
 	}
-	return fmt.Sprintf("(Some {| x_chains := [%s]; x_cn := %d; x_denied := %s; x_nb := %s; x_ip_error := %s; x_ip_valid := %s; x_auto_error := false; x_automation := %s; x_revoked := false |})",
-		strings.Join(cs, "; "), cn, coqBool(denied), coqZ(nb), coqBool(ipErr), coqBool(ipValid), coqBool(automation))
+	return fmt.Sprintf("(Some {| x_chains := [%s]; x_cn := %d; x_key := %d; x_nb := %s; x_ip_error := %s; x_ip_valid := %s; x_auto_error := false; x_automation := %s; x_revoked := false |})",
+		strings.Join(cs, "; "), cn, key, coqZ(nb), coqBool(ipErr), coqBool(ipValid), coqBool(automation))
 }
 
 func c06Shapes(env *verifEnv, m *c06Material) []c06Shape {
@@ -212,9 +371,9 @@ func c06Shapes(env *verifEnv, m *c06Material) []c06Shape {
 	now := m.now
 	var out []c06Shape
 	add := func(s c06Shape) { out = append(out, s) }
-	add(c06Shape{name: "none", class: "none", core: true, tls: "None", cred: "NoCred", apply: func(r *http.Request) {}})
+	add(c06Shape{name: "none", class: "none", core: true, tls: "None", cred: "no_cred", apply: func(r *http.Request) {}})
 	basic := func(name, user, pw string, ok bool, core bool) {
-		s := c06Shape{name: name, class: "basic-bad", core: core, tls: "None", cred: fmt.Sprintf("(Basic %d %s false)", c06User(user), coqBool(ok)),
+		s := c06Shape{name: name, class: "basic-bad", core: core, tls: "None", cred: fmt.Sprintf("(nock (bas %d %s))", c06User(user), coqBool(ok)),
 			apply: func(r *http.Request) { r.SetBasicAuth(user, pw) }}
 		if ok {
 			s.basicUser, s.class = user, "basic-good"
@@ -226,8 +385,8 @@ func c06Shapes(env *verifEnv, m *c06Material) []c06Shape {
 	basic("basic-unknown-user", "mallory", "x", false, false)
 	basic("basic-admin-good", "admin", "adminpw", true, false)
 	// user name and password in the login form (only the login route reads them)
-	add(c06Shape{name: "form-alice-good", class: "basic-good", tls: "None", cred: "(Basic 1 true false)", basicUser: "alice", formLogin: true, apply: func(r *http.Request) {}})
-	add(c06Shape{name: "form-alice-badpw", class: "basic-bad", tls: "None", cred: "(Basic 1 false false)", formLogin: true, formBad: true, apply: func(r *http.Request) {}})
+	add(c06Shape{name: "form-alice-good", class: "basic-good", tls: "None", cred: "(nock (bas 1 true))", basicUser: "alice", formLogin: true, apply: func(r *http.Request) {}})
+	add(c06Shape{name: "form-alice-badpw", class: "basic-bad", tls: "None", cred: "(nock (bas 1 false))", formLogin: true, formBad: true, apply: func(r *http.Request) {}})
 	// ---- cookies
 	cookie := func(name, class, user string, level int, core bool) {
 		v := env.sessionJWT(user, level, now-60, now-60, now+7200)
@@ -304,8 +463,11 @@ func c06Shapes(env *verifEnv, m *c06Material) []c06Shape {
 	nb := time.Unix(now-300, 0)
 	cert := func(s c06Shape, chains [][]*x509.Certificate, remote string, hdr [2]string) {
 		s.hasTLS = true
+		if s.keyID == 0 {
+			s.keyID = c06KeyMain
+		}
 		if s.cred == "" {
-			s.cred = "NoCred"
+			s.cred = "no_cred"
 		}
 		inner := s.apply
 		s.apply = func(r *http.Request) {
@@ -322,11 +484,11 @@ func c06Shapes(env *verifEnv, m *c06Material) []c06Shape {
 	mainCh := []c06Chain{{true, false, true}}
 	roleCh := []c06Chain{{true, true, true}}
 	leafAlice, chAlice := verifClientChain(mainCA, st.Signer, "alice", nb, &m.keys.ec.PublicKey, nil)
-	cert(c06Shape{name: "cert-km-alice", class: "cert-km", core: true, tls: c06TLS(mainCh, 1, false, now-300, false, false, false), certUser: "alice", kmCert: true}, chAlice, "", [2]string{})
+	cert(c06Shape{name: "cert-km-alice", class: "cert-km", core: true, denySweep: true, tls: c06TLS(mainCh, 1, false, now-300, false, false, false), certUser: "alice", kmCert: true}, chAlice, "", [2]string{})
 	cert(c06Shape{name: "cert-km-alice-1chain", class: "cert-1chain", tls: c06TLS([]c06Chain{{false, false, false}}, 1, false, now-300, false, false, false), certUser: "alice"},
 		[][]*x509.Certificate{{leafAlice}}, "", [2]string{})
 	_, chAdmin := verifClientChain(mainCA, st.Signer, "admin", nb, &m.keys.ec.PublicKey, nil)
-	cert(c06Shape{name: "cert-km-admin", class: "cert-km-admin", tls: c06TLS(mainCh, 3, false, now-300, false, false, false), certUser: "admin", kmCert: true}, chAdmin, "", [2]string{})
+	cert(c06Shape{name: "cert-km-admin", class: "cert-km-admin", denySweep: true, tls: c06TLS(mainCh, 3, false, now-300, false, false, false), certUser: "admin", kmCert: true}, chAdmin, "", [2]string{})
 	_, chAuto := verifClientChain(mainCA, st.Signer, "autoadm", nb, &m.keys.ec.PublicKey, nil)
 	cert(c06Shape{name: "cert-km-autoadm", class: "cert-km-autoadm", tls: c06TLS(mainCh, 5, false, now-300, false, false, false), certUser: "autoadm", kmCert: true}, chAuto, "", [2]string{})
 	{
@@ -341,13 +503,13 @@ func c06Shapes(env *verifEnv, m *c06Material) []c06Shape {
 		}
 	}
 	_, chDenied := verifClientChain(mainCA, st.Signer, "alice", nb, &m.deniedKeys.ec.PublicKey, nil)
-	cert(c06Shape{name: "cert-km-denied-key", class: "cert-denied", core: true, tls: c06TLS(mainCh, 1, true, now-300, false, false, false), certUser: "alice"}, chDenied, "", [2]string{})
+	cert(c06Shape{name: "cert-km-denied-key", class: "cert-km", core: true, denySweep: true, tls: c06TLS(mainCh, 1, true, now-300, false, false, false), certUser: "alice", kmCert: true, keyID: c06KeyDenied}, chDenied, "", [2]string{})
 	_, chEmpty := verifClientChain(mainCA, st.Signer, "", nb, &m.keys.ec.PublicKey, nil)
 	cert(c06Shape{name: "cert-km-empty-cn", class: "cert-empty-cn", tls: c06TLS(mainCh, 0, false, now-300, false, false, false)}, chEmpty, "", [2]string{})
 	// multi-chain connection states (same leaf, several verified paths)
 	cert(c06Shape{name: "cert-km-alice-chains-1+2", class: "cert-km", tls: c06TLS([]c06Chain{{false, false, false}, {true, false, true}}, 1, false, now-300, false, false, false), certUser: "alice", kmCert: true},
 		[][]*x509.Certificate{{leafAlice}, {leafAlice, mainCACert}}, "", [2]string{})
-	cert(c06Shape{name: "cert-km-alice-chains-foreign+main", class: "cert-km", tls: c06TLS([]c06Chain{{true, false, false}, {true, false, true}}, 1, false, now-300, false, false, false), certUser: "alice", kmCert: true},
+	cert(c06Shape{name: "cert-km-alice-chains-foreign+main", class: "cert-km", denySweep: true, tls: c06TLS([]c06Chain{{true, false, false}, {true, false, true}}, 1, false, now-300, false, false, false), certUser: "alice", kmCert: true},
 		[][]*x509.Certificate{{leafAlice, m.foreignCA}, {leafAlice, mainCACert}}, "", [2]string{})
 	cert(c06Shape{name: "cert-km-alice-chains-role+main", class: "cert-km", tls: c06TLS([]c06Chain{{true, true, true}, {true, false, true}}, 1, false, now-300, false, false, false), certUser: "alice", kmCert: true},
 		[][]*x509.Certificate{{leafAlice, roleCACert}, {leafAlice, mainCACert}}, "", [2]string{})
@@ -390,6 +552,108 @@ func c06Shapes(env *verifEnv, m *c06Material) []c06Shape {
 		cert(c06Shape{name: "cert-ip-outside+cookie-alice", class: "cert-ip-outside+cookie", tls: c06TLS(roleCh, 4, false, ipNB, false, false, true),
 			cred: c06Token(true, true, false, true, true, 0, now-60, now+7200, now-60, 1, lvl), certUser: "svc-automation",
 			cookieValid: true, cookieUser: "alice", cookieLevel: lvl, apply: func(r *http.Request) { r.AddCookie(authCookie(v)) }}, chIP, "192.168.1.1:4711", [2]string{})
+	}
+	// ---- combinations: client certificate x auth_cookie x basic-auth header, each present or
+	// absent, valid or not, on one request.  Parts are combined mechanically; the precedence is
+	// the code's business (and the model's), the oracle only knows what each part establishes.
+	type part struct {
+		name, class, coq string
+		route           bool // also sent through the routes in the quick tier
+		set             func(s *c06Shape)
+		apply           func(r *http.Request)
+	}
+	ckPart := func(name, class, value, tok string, valid bool, user string, level int, route bool) part {
+		return part{name: name, class: class, coq: tok, route: route,
+			set: func(s *c06Shape) {
+				if valid {
+					s.cookieValid, s.cookieUser, s.cookieLevel = true, user, level
+				}
+			},
+			apply: func(r *http.Request) { r.AddCookie(authCookie(value)) }}
+	}
+	good := func(user string, level int) string {
+		return c06Tok(true, true, false, true, true, 0, now-60, now+7200, now-60, c06User(user), level)
+	}
+	cookies := []part{{name: "", coq: ""},
+		ckPart("cookie-junk", "cookie-invalid", "not-a-token", c06Tok(false, false, true, false, false, 0, 0, 0, 0, 0, 0), false, "", 0, true),
+		ckPart("cookie-other-kind", "cookie-invalid", verifSignClaims(st.Signer, authInfoJWT{Issuer: issuer, Subject: "alice", Audience: []string{issuer},
+			AuthType: lvl, TokenType: "keymaster_webauth_for_cli_identity", NotBefore: now - 60, IssuedAt: now - 60, Expiration: now + 7200}),
+			c06Tok(true, true, false, true, true, 1, now-60, now+7200, now-60, 1, lvl), false, "", 0, true),
+		ckPart("cookie-expired", "cookie-invalid", env.sessionJWT("alice", lvl, now-7200, now-7200, now-100),
+			c06Tok(true, true, false, true, true, 0, now-7200, now-100, now-7200, 1, lvl), false, "", 0, true),
+		ckPart("cookie-old-signer", "cookie-invalid", verifSignClaims(m.foreignKey, authInfoJWT{Issuer: issuer, Subject: "alice", Audience: []string{issuer},
+			AuthType: lvl, TokenType: "keymaster_auth", NotBefore: now - 60, IssuedAt: now - 60, Expiration: now + 7200}),
+			c06Tok(false, true, false, true, true, 0, now-60, now+7200, now-60, 1, lvl), false, "", 0, false),
+		ckPart("cookie-alice-password", "cookie-password", env.sessionJWT("alice", AuthTypePassword, now-60, now-60, now+7200), good("alice", AuthTypePassword), true, "alice", AuthTypePassword, true),
+		ckPart("cookie-alice-u2f", "cookie-good", env.sessionJWT("alice", lvl, now-60, now-60, now+7200), good("alice", lvl), true, "alice", lvl, true),
+		ckPart("cookie-bob-u2f", "cookie-other-user", env.sessionJWT("bob", lvl, now-60, now-60, now+7200), good("bob", lvl), true, "bob", lvl, false),
+	}
+	baPart := func(name, class, user, pw string, ok, route bool) part {
+		return part{name: name, class: class, coq: fmt.Sprintf("(bas %d %s)", c06User(user), coqBool(ok)), route: route,
+			set: func(s *c06Shape) {
+				if ok {
+					s.basicUser = user
+				}
+			},
+			apply: func(r *http.Request) { r.SetBasicAuth(user, pw) }}
+	}
+	basics := []part{{name: "", coq: ""},
+		baPart("basic-alice-good", "basic-good", "alice", "alicepw", true, true),
+		baPart("basic-alice-badpw", "basic-bad", "alice", "wrong", false, true),
+		baPart("basic-admin-good", "basic-good", "admin", "adminpw", true, false)}
+	tlsPart := func(name, class, tls string, chains [][]*x509.Certificate, remote, user string, km bool, key int, ip, route bool) part {
+		return part{name: name, class: class, coq: tls, route: route,
+			set: func(s *c06Shape) {
+				s.hasTLS, s.certUser, s.kmCert, s.keyID, s.ipCert = true, user, km, key, ip
+			},
+			apply: func(r *http.Request) { withTLS(r, chains, remote) }}
+	}
+	certs := []part{{name: "", coq: "None", route: true},
+		tlsPart("cert-km-alice", "cert-km", c06TLS(mainCh, 1, false, now-300, false, false, false), chAlice, "", "alice", true, c06KeyMain, false, true),
+		tlsPart("cert-km-admin", "cert-km-admin", c06TLS(mainCh, 3, false, now-300, false, false, false), chAdmin, "", "admin", true, c06KeyMain, false, false),
+		tlsPart("cert-km-denied-key", "cert-km", c06TLS(mainCh, 1, true, now-300, false, false, false), chDenied, "", "alice", true, c06KeyDenied, false, false),
+		tlsPart("cert-ip-inside", "cert-ip-inside", c06TLS(roleCh, 4, false, ipNB, false, true, true), chIP, "10.1.2.3:4711", "svc-automation", false, c06KeyMain, true, false),
+		tlsPart("cert-ip-outside", "cert-ip-outside", c06TLS(roleCh, 4, false, ipNB, false, false, true), chIP, "192.168.1.1:4711", "svc-automation", false, c06KeyMain, false, true)}
+	for _, ce := range certs {
+		for _, ck := range cookies {
+			for _, ba := range basics {
+				present := 0
+				var names, classes []string
+				for _, x := range []part{ce, ck, ba} {
+					if x.name != "" {
+						present++
+						names = append(names, x.name)
+						classes = append(classes, x.class)
+					}
+				}
+				if present < 2 {
+					continue // the single credentials are the shapes above
+				}
+				sh := c06Shape{name: strings.Join(names, "+"), class: strings.Join(classes, "+"), combo: true, tls: ce.coq,
+					routeProbe: ce.route && ck.name != "" && ck.route && ba.name != "" && ba.route}
+				cookieCoq, basicCoq := "None", "None"
+				if ck.name != "" {
+					cookieCoq = "(Some " + ck.coq + ")"
+				}
+				if ba.name != "" {
+					basicCoq = ba.coq
+				}
+				sh.cred = fmt.Sprintf("{| k_cookie := %s; k_basic := %s |}", cookieCoq, basicCoq)
+				var applies []func(r *http.Request)
+				for _, x := range []part{ce, ck, ba} {
+					if x.name != "" {
+						x.set(&sh)
+						applies = append(applies, x.apply)
+					}
+				}
+				sh.apply = func(r *http.Request) {
+					for _, f := range applies {
+						f(r)
+					}
+				}
+				add(sh)
+			}
+		}
 	}
 	return out
 }
@@ -455,17 +719,17 @@ var c06Gates = map[string]c06Gate{
 	"runtimeState.idpOpenIDCDiscoveryHandler":          {kind: "public"},
 	"runtimeState.idpOpenIDCJWKSHandler":               {kind: "public"},
 	"runtimeState.idpOpenIDCAuthorizationHandler":      {kind: "mask", mask: "webui", exercised: c06EffSigned},
-	"runtimeState.idpOpenIDCTokenHandler":              {kind: "own"},
+	"runtimeState.idpOpenIDCTokenHandler":              {kind: "own", exercised: c06EffSigned},
 	"runtimeState.idpOpenIDCUserinfoHandler":           {kind: "own"},
 	`"/static/"`:                                       {kind: "public"},
 	`"/static/compiled/"`:                              {kind: "public"},
 	`"/custom_static/"`:                                {kind: "public"},
 	"runtimeState.u2fRegisterRequest":                  {kind: "mask", mask: "webui", extra: "self-or-admin-u2f", exercised: c06EffChange, targets: []string{"alice", "bob", "admin"}},
-	"runtimeState.u2fRegisterResponse":                 {kind: "mask", mask: "webui", extra: "self-or-admin-u2f", targets: []string{"alice", "bob", "admin"}},
+	"runtimeState.u2fRegisterResponse":                 {kind: "mask", mask: "webui", extra: "self-or-admin-u2f", exercised: c06EffChange, targets: []string{"alice", "bob", "admin"}},
 	"runtimeState.u2fSignRequest":                      {kind: "mask", mask: "any", exercised: c06EffStart},
-	"runtimeState.u2fSignResponse":                     {kind: "mask", mask: "any"},
+	"runtimeState.u2fSignResponse":                     {kind: "mask", mask: "any", exercised: c06EffSigned},
 	"runtimeState.webauthnBeginRegistration":           {kind: "mask", mask: "webui", extra: "self-or-admin-u2f", exercised: c06EffChange, targets: []string{"alice", "bob", "admin"}},
-	"runtimeState.webauthnFinishRegistration":          {kind: "mask", mask: "webui", extra: "self-or-admin-u2f", targets: []string{"alice", "bob", "admin"}},
+	"runtimeState.webauthnFinishRegistration":          {kind: "mask", mask: "webui", extra: "self-or-admin-u2f", exercised: c06EffChange, targets: []string{"alice", "bob", "admin"}},
 	"runtimeState.webauthnAuthLogin":                   {kind: "mask", mask: "any", exercised: c06EffStart},
 	"runtimeState.webauthnAuthFinish":                  {kind: "mask", mask: "any"},
 	"runtimeState.VIPAuthHandler":                      {kind: "mask", mask: "any", exercised: c06EffSigned},
@@ -476,7 +740,7 @@ var c06Gates = map[string]c06Gate{
 	"runtimeState.vipPushStartHandler":                 {kind: "mask", mask: "any", exercised: c06EffStart},
 	"runtimeState.VIPPollCheckHandler":                 {kind: "mask", mask: "any", exercised: c06EffSigned},
 	"runtimeState.GenerateNewTOTP":                     {kind: "mask", mask: "webui", exercised: c06EffChange},
-	"runtimeState.validateNewTOTP":                     {kind: "mask", mask: "webui"},
+	"runtimeState.validateNewTOTP":                     {kind: "mask", mask: "webui", exercised: c06EffChange},
 	"runtimeState.totpTokenManagerHandler":             {kind: "mask", mask: "webui", extra: "self-or-admin-u2f", exercised: c06EffChange, targets: []string{"alice", "bob", "admin"}},
 	"runtimeState.verifyTOTPHandler":                   {kind: "mask", mask: "webui", exercised: c06EffChange},
 	"runtimeState.TOTPAuthHandler":                     {kind: "mask", mask: "any", exercised: c06EffChange | c06EffSigned},
@@ -516,11 +780,11 @@ func c06MaskVal(mask string, webui int) int {
 
 // what the credential of a shape establishes for a given mask: every (user, level) pair some
 // currently valid credential in the request proves (specification side, from construction)
-func (s *c06Shape) establishes(mask int) [][2]interface{} {
+func (s *c06Shape) establishes(mask int, d *c06Deny) [][2]interface{} {
 	var out [][2]interface{}
 	if s.hasTLS && mask&(AuthTypeKeymasterX509|AuthTypeIPCertificate) != 0 && s.certUser != "" {
 		l := 0
-		if s.kmCert {
+		if s.kmCert && !d.has(s.keyID) {
 			l |= AuthTypeKeymasterX509
 		}
 		if s.ipCert && mask&AuthTypeIPCertificate != 0 {
@@ -544,7 +808,7 @@ func c06IsAutoAdmin(u string) bool { return u == "admin" || u == "autoadm" }
 
 // the property's predicate: does the request carry a currently valid credential of a kind and
 // level the endpoint accepts (and, for non-GET, no foreign Origin/Referer)?
-func c06Acceptable(g c06Gate, s *c06Shape, webui int, method string, originClass int, target string, own bool) bool {
+func c06Acceptable(g c06Gate, s *c06Shape, d *c06Deny, webui int, method string, originClass int, target string, own bool) bool {
 	switch g.kind {
 	case "public":
 		return false
@@ -557,7 +821,7 @@ func c06Acceptable(g c06Gate, s *c06Shape, webui int, method string, originClass
 		return false
 	}
 	mask := c06MaskVal(g.mask, webui)
-	for _, ul := range s.establishes(mask) {
+	for _, ul := range s.establishes(mask, d) {
 		u, l := ul[0].(string), ul[1].(int)
 		if l&mask == 0 {
 			continue
@@ -641,6 +905,15 @@ type c06Prober struct {
 	jwtRE     *regexp.Regexp
 	witnessed map[string]int
 	okta      bool
+	denies    []c06Deny
+	deny      int // index of the deny list in force
+	// software authenticator: what the "finish" handlers need to succeed
+	dev          *verifU2FDevice
+	regChallenge *u2f.Challenge // pending U2F registration of alice, bob, admin
+	signChallenge *u2f.Challenge // pending U2F sign challenge of alice
+	seededAt     time.Time
+	oidcCode     string // an authorization code issued to alice's session for client "app"
+	denySweeps bool
 }
 
 func (p *c06Prober) tableRows() (rows [2][][]interface{}, digest string) {
@@ -704,6 +977,10 @@ func (p *c06Prober) resetMaps() {
 	st := p.env.state
 	st.Mutex.Lock()
 	st.localAuthData = make(map[string]localUserData)
+	if p.signChallenge != nil {
+		// alice is in the middle of a hardware-token login: /u2f/SignResponse can succeed
+		st.localAuthData["alice"] = localUserData{U2fAuthChallenge: p.signChallenge, ExpiresAt: time.Now().Add(time.Hour)}
+	}
 	st.vipPushCookie = map[string]pushPollTransaction{c06PollCookie: {Username: "alice", TransactionID: "tx-approved", ExpiresAt: time.Now().Add(time.Hour)}}
 	st.pendingOauth2 = make(map[string]pendingAuth2Request)
 	st.Mutex.Unlock()
@@ -712,23 +989,35 @@ func (p *c06Prober) resetMaps() {
 	st.totpLocalTateLimitMutex.Unlock()
 }
 
-func (p *c06Prober) mapsDigest() string {
+// the challenge / push maps and the push counters of the fakes.  A second-factor transaction is
+// STARTED when an entry appears or is replaced, or a push goes out; an entry that is consumed
+// (deleted after a successful answer) starts nothing.
+func (p *c06Prober) mapsDigest() map[string]string {
 	st := p.env.state
 	st.Mutex.Lock()
 	defer st.Mutex.Unlock()
-	var ks []string
+	m := map[string]string{}
 	for k, v := range st.localAuthData {
 		c := ""
 		if v.U2fAuthChallenge != nil {
 			c = hex.EncodeToString(v.U2fAuthChallenge.Challenge)
 		}
-		ks = append(ks, "l:"+k+":"+c)
+		m["l:"+k] = c
 	}
 	for k, v := range st.vipPushCookie {
-		ks = append(ks, "v:"+k+":"+v.TransactionID)
+		m["v:"+k] = v.TransactionID
 	}
-	sort.Strings(ks)
-	return strings.Join(ks, ",") + fmt.Sprintf("|%d|%d", p.fakes.vipPushes, p.fakes.oktaPushes)
+	m["pushes"] = fmt.Sprintf("%d|%d", p.fakes.vipPushes, p.fakes.oktaPushes)
+	return m
+}
+
+func c06Started(before, after map[string]string) bool {
+	for k, v := range after {
+		if b, ok := before[k]; !ok || b != v {
+			return true
+		}
+	}
+	return false
 }
 
 // signed material: anything in the response that verifies under the keymaster keys
@@ -818,7 +1107,7 @@ func (p *c06Prober) serve(req *http.Request) c06Obs {
 		o.effects |= c06EffChange
 		p.restoreTables()
 	}
-	if p.mapsDigest() != before {
+	if c06Started(before, p.mapsDigest()) {
 		o.effects |= c06EffStart
 	}
 	p.resetMaps()
@@ -827,6 +1116,9 @@ func (p *c06Prober) serve(req *http.Request) c06Obs {
 
 // a well-formed request for the route (what a fitting credential would need to succeed)
 func (p *c06Prober) build(route verifRoute, key, method, target string, own bool, sh *c06Shape) *http.Request {
+	if time.Since(p.seededAt) > 100*time.Second {
+		p.seedProfiles() // U2F challenges are good for five minutes
+	}
 	form := url.Values{}
 	path := route.Path
 	body := ""
@@ -842,10 +1134,21 @@ func (p *c06Prober) build(route verifRoute, key, method, target string, own bool
 		path += "session.js"
 	case "runtimeState.profileHandler", "runtimeState.u2fRegisterRequest", "runtimeState.webauthnBeginRegistration":
 		path += target
-	case "runtimeState.u2fRegisterResponse", "runtimeState.webauthnFinishRegistration":
+	case "runtimeState.u2fRegisterResponse":
+		// a genuine answer of the software token to the registration challenge pending in the profiles
 		path += target
 		body = "{}"
-	case "runtimeState.u2fSignResponse", "runtimeState.webauthnAuthFinish":
+		if reqJSON, err := json.Marshal(u2f.NewWebRegisterRequest(p.regChallenge, nil)); err == nil {
+			if b, err := p.dev.register(reqJSON, u2fTrustedFacets[0]); err == nil {
+				body = string(b)
+			}
+		}
+	case "runtimeState.webauthnFinishRegistration":
+		path += target
+		body = string(c06WebauthnCreate(p.dev, c06WAChallenge, p.env.state.webAuthn.Config.RPID, p.env.state.webAuthn.Config.RPOrigin))
+	case "runtimeState.u2fSignResponse":
+		body = string(c06U2FSignResponse(p.dev, p.signChallenge, u2fTrustedFacets[0]))
+	case "runtimeState.webauthnAuthFinish":
 		body = "{}"
 	case "runtimeState.addUserHandler":
 		form.Set("username", "vrfnewuser")
@@ -860,11 +1163,18 @@ func (p *c06Prober) build(route verifRoute, key, method, target string, own bool
 	case "runtimeState.idpOpenIDCTokenHandler":
 		form.Set("grant_type", "authorization_code")
 		form.Set("code", "bogus")
+		if own {
+			form.Set("code", p.oidcCode) // a code the authorization endpoint issued to alice's session
+		}
 		form.Set("redirect_uri", "https://app.example.com/cb")
 		form.Set("client_id", "app")
 		form.Set("client_secret", "s")
-	case "runtimeState.VIPAuthHandler", "runtimeState.validateNewTOTP", "runtimeState.Okta2FAuthHandler":
+	case "runtimeState.VIPAuthHandler", "runtimeState.Okta2FAuthHandler":
 		form.Set("OTP", "123456")
+	case "runtimeState.validateNewTOTP":
+		// the code of the secret that is pending in the profiles
+		code, _ := totp.GenerateCode(p.totpKey, time.Now())
+		form.Set("OTP", code)
 	case "runtimeState.vipPushStartHandler":
 		cookies = append(cookies, &http.Cookie{Name: vipTransactionCookieName, Value: "vrf-new-transaction"})
 	case "runtimeState.VIPPollCheckHandler":
@@ -973,15 +1283,46 @@ func (p *c06Prober) seedProfiles() {
 	if err != nil {
 		p.t.Fatal(err)
 	}
-	withTokens := func(name string) *userProfile {
-		reg, err := c06FakeRegistration(name)
+	// the software token: really registered in the three profiles, a registration pending in each
+	// (U2F challenge and WebAuthn session), and a sign challenge pending for alice
+	if p.dev == nil {
+		p.dev = newVerifU2FDevice()
+	}
+	newChallenge := func() *u2f.Challenge {
+		c, err := u2f.NewChallenge(u2fAppID, u2fTrustedFacets)
 		if err != nil {
 			p.t.Fatal(err)
 		}
-		pr := &userProfile{U2fAuthData: map[int64]*u2fAuthData{}, TOTPAuthData: map[int64]*totpAuthData{}}
-		pr.U2fAuthData[1] = &u2fAuthData{Enabled: true, CreatedAt: time.Now(), Name: "vrfcanary-u2f-" + name, Registration: reg}
+		return c
+	}
+	var devReg *u2f.Registration
+	{
+		c := newChallenge()
+		reqJSON, _ := json.Marshal(u2f.NewWebRegisterRequest(c, nil))
+		respJSON, err := p.dev.register(reqJSON, u2fTrustedFacets[0])
+		if err != nil {
+			p.t.Fatal(err)
+		}
+		var resp u2f.RegisterResponse
+		json.Unmarshal(respJSON, &resp)
+		devReg, err = u2f.Register(resp, *c, &u2f.Config{SkipAttestationVerify: true})
+		if err != nil {
+			p.t.Fatalf("software token registration refused: %v", err)
+		}
+	}
+	p.regChallenge, p.signChallenge = newChallenge(), newChallenge()
+	p.seededAt = time.Now()
+	withTokens := func(name string) *userProfile {
+		pr := &userProfile{U2fAuthData: map[int64]*u2fAuthData{}, TOTPAuthData: map[int64]*totpAuthData{}, WebauthnData: map[int64]*webauthAuthData{}}
+		pr.U2fAuthData[1] = &u2fAuthData{Enabled: true, CreatedAt: time.Now(), Name: "vrfcanary-u2f-" + name, Registration: devReg}
 		pr.TOTPAuthData[1] = &totpAuthData{Enabled: true, CreatedAt: time.Now(), Name: "vrfcanary-totp-" + name, EncryptedSecret: enc}
 		pr.UserHasRegistered2ndFactor = true
+		pr.RegistrationChallenge = p.regChallenge
+		pending := enc
+		pr.PendingTOTPSecret = &pending
+		pr.WebauthnID = 4711
+		pr.DisplayName, pr.Username = name, name
+		pr.WebauthnSessionData = &webauthn.SessionData{Challenge: c06WAChallenge, UserID: pr.WebAuthnID()}
 		return pr
 	}
 	for _, u := range []string{"alice", "bob", "admin"} {
@@ -1015,11 +1356,11 @@ type c06Config struct {
 	webui   []string
 	okta    bool
 	reduced bool                  // quick tier: core shapes only
+	combos  bool                  // ... and the credential combinations
 	routes  func(key string) bool // which routes to sweep in this configuration
 }
 
 func c06Setup(t *testing.T, cfg c06Config, mat *c06Material, fakes *c06Fakes) *verifEnv {
-	deniedFP, _ := getKeyFingerprint(&mat.deniedKeys.ec.PublicKey)
 	env := verifSetup(t, func(c *AppConfigFile, dir string) {
 		c.Base.AllowedAuthBackendsForWebUI = cfg.webui
 		c.Base.AllowedAuthBackendsForCerts = []string{proto.AuthTypeU2F, proto.AuthTypeTOTP, proto.AuthTypeIPCertificate}
@@ -1031,7 +1372,7 @@ func c06Setup(t *testing.T, cfg c06Config, mat *c06Material, fakes *c06Fakes) *v
 		c.Base.WebauthTokenForCliLifetime = 3600e9
 		c.Base.PasswordAttemptGlobalBurstLimit = 100000000
 		c.Base.PasswordAttemptGlobalRateLimit = 100000000
-		c.DenyTrustData.KeyDenyFPsshSha256 = []string{deniedFP}
+		c.DenyTrustData.KeyDenyFPsshSha256 = c06DenyLists(mat)[0].fps // three entries, the denied key in the middle
 		os.MkdirAll(filepath.Join(c.Base.SharedDataDirectory, "customization_data", "web_resources"), 0755)
 		c.AwsCerts.AllowedAccounts = []string{"123456789012"}
 		c.OpenIDConnectIDP.Client = append(c.OpenIDConnectIDP.Client, OpenIDConnectClientConfig{ClientID: "app", ClientSecret: "s", AllowedRedirectDomains: []string{"example.com"}})
@@ -1085,6 +1426,14 @@ func TestVerif_C06(t *testing.T) {
 	fder, _ := x509.CreateCertificate(rand.Reader, &ftmpl, &ftmpl, &fk.PublicKey, fk)
 	fca, _ := x509.ParseCertificate(fder)
 	mat := &c06Material{keys: verifNewKeys(), deniedKeys: verifNewKeys(), foreignCA: fca, foreignKey: fk, now: now}
+	mat.fpMain, _ = getKeyFingerprint(&mat.keys.ec.PublicKey)
+	mat.fpDenied, _ = getKeyFingerprint(&mat.deniedKeys.ec.PublicKey)
+	for i := 0; i < 4; i++ {
+		f, _ := getKeyFingerprint(&verifNewKeys().ec.PublicKey)
+		mat.fpFiller = append(mat.fpFiller, f)
+	}
+	denies := c06DenyLists(mat)
+	denyRoutes := c06DenyRouteSubset(denies)
 	fakes := &c06Fakes{}
 	fakes.vip = httptest.NewTLSServer(c06VIPHandler(fakes))
 	defer fakes.vip.Close()
@@ -1099,7 +1448,11 @@ func TestVerif_C06(t *testing.T) {
 		{name: "A", webui: []string{"U2F", "TOTP"}, routes: all},
 		{name: "B", webui: []string{"password"}, routes: webuiRoutes, reduced: true},
 		{name: "C", webui: []string{"U2F", proto.AuthTypeOkta2FA}, okta: true, routes: oktaRoutes},
+		// a web UI that takes hardware tokens only: the masked routes under credential combinations
+		{name: "D", webui: []string{"U2F"}, routes: webuiRoutes, reduced: true, combos: true},
 	}
+	var webuiCases []string
+	denySweeps := true
 	var shapeCoq []string
 	var gateCases, gateIdx []string
 	var groups, routeIdx []string
@@ -1118,10 +1471,14 @@ func TestVerif_C06(t *testing.T) {
 	for ci, cfg := range configs {
 		env := c06Setup(t, cfg, mat, fakes)
 		p := &c06Prober{t: t, env: env, res: res, mat: mat, fakes: fakes, log: &c06Logger{}, cfgName: cfg.name, okta: cfg.okta,
-			jwtRE: regexp.MustCompile(`eyJ[A-Za-z0-9_-]{4,}\.[A-Za-z0-9_-]{4,}\.[A-Za-z0-9_-]{8,}`), witnessed: witnessed}
+			jwtRE: regexp.MustCompile(`eyJ[A-Za-z0-9_-]{4,}\.[A-Za-z0-9_-]{4,}\.[A-Za-z0-9_-]{8,}`), witnessed: witnessed, denies: denies}
 		mux := verifBuildServiceMux(env.state)
 		p.handler = instrumentedwriter.NewLoggingHandler(mux, p.log)
 		p.webui = env.state.getRequiredWebUIAuthLevel()
+		webuiCases = append(webuiCases, c06WebUICase(cfg.webui, p.webui))
+		if ci == 0 {
+			webuiCases = append(webuiCases, c06WebUISweep(env.state)...)
+		}
 		for _, der := range append(append([][]byte{}, env.state.caCertDer...), env.state.selfRoleCaCertDer) {
 			if c, err := x509.ParseCertificate(der); err == nil {
 				p.caCerts = append(p.caCerts, c)
@@ -1129,7 +1486,14 @@ func TestVerif_C06(t *testing.T) {
 		}
 		p.seedProfiles()
 		p.cliToken, _ = env.state.generateAuthJWT("alice")
+		p.oidcCode = c06AuthorizationCode(p)
 		p.shapes = c06Shapes(env, mat)
+		if ci == 0 && !c06DenyAssignable(p) {
+			denySweeps = false
+			res.hit(verifHit{Key: "C06:harness:deny-list-not-assignable", Oracle: "harness", Kind: "harness",
+				What: "assigning Config.DenyTrustData.KeyDenyFPsshSha256 between requests has no effect (the deny list is no longer read at request time): the enumerated deny lists cannot be put in force; only the list of the configuration file was exercised"})
+		}
+		p.denySweeps = denySweeps
 		if ci == 0 {
 			for _, s := range p.shapes {
 				shapeCoq = append(shapeCoq, fmt.Sprintf("(%s, %s) (* %s *)", s.tls, s.cred, s.name))
@@ -1169,9 +1533,12 @@ func TestVerif_C06(t *testing.T) {
 				targets = []string{"alice"}
 			}
 			var cases []string
-			probe := func(si int, method string, oi int, target string, own bool) {
+			probe := func(si int, method string, oi int, target string, own bool, dl int) {
 				s := &p.shapes[si]
 				o := c06Origins[oi]
+				d := &p.denies[dl]
+				p.setDeny(dl)
+				sclass := s.classFor(d)
 				req := p.build(route, key, method, target, own, s)
 				if o.origin != "" {
 					req.Header.Set("Origin", o.origin)
@@ -1183,10 +1550,16 @@ func TestVerif_C06(t *testing.T) {
 				oc := c06OriginClass(o.origin, o.referer, req.Host)
 				obs := p.serve(req)
 				nontrivial := obs.user != "" || obs.effects != 0
-				res.eval(fmt.Sprintf("%s|%s|%s|%s|%s|%s|%v|%s|%d", cfg.name, key, s.name, method, o.name, target, own, obs.user, obs.effects), nontrivial)
+				res.eval(fmt.Sprintf("%s|%s|%s|%s|%s|%s|%v|%s|%s|%d", cfg.name, key, s.name, method, o.name, target, own, d.name, obs.user, obs.effects), nontrivial)
+				if dl != 0 {
+					res.bump("deny-list-probe")
+				}
+				if s.combo {
+					res.bump("combination-probe")
+				}
 				res.bump("origin:" + []string{"none", "same-site", "cross-site", "malformed"}[oc])
 				res.bump("method:" + method)
-				res.bump("cred:" + s.class)
+				res.bump("cred:" + sclass)
 				if obs.user != "" {
 					res.bump("admitted")
 				}
@@ -1194,21 +1567,21 @@ func TestVerif_C06(t *testing.T) {
 					res.bump("effect")
 					witnessed[key] |= obs.effects
 				}
-				desc := map[string]interface{}{"config": cfg.name, "route": route.Path, "handler": key, "credential": s.name, "method": method,
-					"origin": o.origin, "referer": o.referer, "target": target, "own_credential": own}
+				desc := map[string]interface{}{"config": cfg.name, "webui_backends": cfg.webui, "route": route.Path, "handler": key, "credential": s.name, "method": method,
+					"origin": o.origin, "referer": o.referer, "target": target, "own_credential": own, "deny_list": d.name, "deny_list_keys": d.ids}
 				observed := map[string]interface{}{"status": obs.status, "logged_user": obs.user, "effects": c06EffNames(obs.effects)}
 				if obs.panic {
 					res.bump("panic:" + key)
 				}
 				// ---- the property's own oracle
-				acceptable := c06Acceptable(gate, s, p.webui, method, oc, target, own)
+				acceptable := c06Acceptable(gate, s, d, p.webui, method, oc, target, own)
 				if obs.effects != 0 && !acceptable {
-					k := fmt.Sprintf("C06:effect-without-credential:%s:%s", key, s.class)
+					k := fmt.Sprintf("C06:effect-without-credential:%s:%s", key, sclass)
 					if method != "GET" && (oc == c06Cross || oc == c06Bad) {
 						k = fmt.Sprintf("C06:cross-site-effect:%s:%s", key, "non-GET")
 					}
 					hit(verifHit{Key: k, Oracle: "protected effect although the request carries no currently valid credential of a kind and level the endpoint accepts",
-						What:  fmt.Sprintf("%s %s with credential %s (origin %q referer %q, target %q): effects %v, status %d", method, route.Path, s.name, o.origin, o.referer, target, c06EffNames(obs.effects), obs.status),
+						What:  fmt.Sprintf("%s %s with credential %s (origin %q referer %q, target %q, web UI backends %v, deny list %s): effects %v, status %d", method, route.Path, s.name, o.origin, o.referer, target, cfg.webui, d.name, c06EffNames(obs.effects), obs.status),
 						Case:  desc, Observed: observed})
 				}
 				if obs.effects&(c06EffChange|c06EffStart) != 0 && (oc == c06Cross || oc == c06Bad) && gate.kind == "mask" {
@@ -1222,7 +1595,7 @@ func TestVerif_C06(t *testing.T) {
 				}
 				if obs.user != "" && gate.kind == "mask" {
 					okID := false
-					for _, ul := range s.establishes(c06MaskVal(gate.mask, p.webui)) {
+					for _, ul := range s.establishes(c06MaskVal(gate.mask, p.webui), d) {
 						if ul[0].(string) == obs.user && ul[1].(int)&c06MaskVal(gate.mask, p.webui) != 0 {
 							okID = true
 						}
@@ -1231,8 +1604,8 @@ func TestVerif_C06(t *testing.T) {
 						okID = false
 					}
 					if !okID {
-						hit(verifHit{Key: fmt.Sprintf("C06:admitted-without-credential:%s:%s", key, s.class), Oracle: "the access log records an admitted identity that no valid credential of an accepted kind in the request establishes",
-							What:  fmt.Sprintf("%s %s with credential %s (origin %q referer %q) was admitted as %q", method, route.Path, s.name, o.origin, o.referer, obs.user),
+						hit(verifHit{Key: fmt.Sprintf("C06:admitted-without-credential:%s:%s", key, sclass), Oracle: "the access log records an admitted identity that no valid credential of an accepted kind in the request establishes",
+							What:  fmt.Sprintf("%s %s with credential %s (origin %q referer %q, web UI backends %v, deny list %s) was admitted as %q", method, route.Path, s.name, o.origin, o.referer, cfg.webui, d.name, obs.user),
 							Case:  desc, Observed: observed})
 					}
 				}
@@ -1244,18 +1617,53 @@ func TestVerif_C06(t *testing.T) {
 				if obs.panic {
 					loggedN = 255 // the access log entry was never written
 				}
-				cases = append(cases, fmt.Sprint(c06Pack([][2]int{{si, 8}, {c06MethN(method), 2}, {oc, 2}, {c06User(target), 8}, {ownN, 1}, {loggedN, 8}, {obs.effects, 4}})))
-				routeIdx = append(routeIdx, fmt.Sprintf("%d\tconfig=%s %s %s cred=%s origin=%q referer=%q target=%q own=%v -> status=%d user=%q effects=%v",
-					nRoute, cfg.name, method, route.Path, s.name, o.origin, o.referer, target, own, obs.status, obs.user, c06EffNames(obs.effects)))
+				cases = append(cases, fmt.Sprint(c06Pack([][2]int{{si, 10}, {c06MethN(method), 2}, {oc, 2}, {c06User(target), 8}, {ownN, 1}, {loggedN, 8}, {obs.effects, 4}, {dl, 6}})))
+				routeIdx = append(routeIdx, fmt.Sprintf("%d\tconfig=%s webui=%v %s %s cred=%s origin=%q referer=%q target=%q own=%v deny-list=%s -> status=%d user=%q effects=%v",
+					nRoute, cfg.name, cfg.webui, method, route.Path, s.name, o.origin, o.referer, target, own, d.name, obs.status, obs.user, c06EffNames(obs.effects)))
 				nRoute++
+				p.setDeny(0)
 			}
 			for si := range p.shapes {
 				s := &p.shapes[si]
 				if s.formLogin && key != "runtimeState.loginHandler" {
 					continue
 				}
+				if s.combo {
+					// combinations: GET and same-site-less POST, first target; the quick tier sends the
+					// marked subset through the routes of the configurations that ask for it
+					if !thorough && !(s.routeProbe && (cfg.combos || cfg.name == "A")) {
+						continue
+					}
+					for _, method := range []string{"GET", "POST"} {
+						probe(si, method, 0, targets[0], false, 0)
+					}
+					if thorough {
+						probe(si, "POST", 3, targets[0], false, 0)
+					}
+					continue
+				}
 				if cfg.reduced && !thorough && !(s.core || s.basicUser != "" || s.class == "cookie-password+totp" || s.class == "cookie-totp") {
 					continue
+				}
+				// deny lists of every length with the presented key at every position, on the routes
+				// that take keymaster certificates
+				if p.denySweeps && s.denySweep && cfg.name == "A" && gate.kind == "mask" && (gate.mask == "any" || gate.mask == "webui+x509") {
+					lists := denyRoutes
+					if thorough {
+						lists = nil
+						for i := 1; i < len(denies); i++ {
+							lists = append(lists, i)
+						}
+					}
+					for _, dl := range lists {
+						if !thorough && s.name != "cert-km-admin" && s.name != "cert-km-denied-key" && gate.mask == "any" && key != "runtimeState.certGenHandler" {
+							continue // quick tier: the admin certificate everywhere, the others on the certificate and admin routes
+						}
+						probe(si, "POST", 0, targets[0], false, dl)
+						if key == "runtimeState.usersHandler" || thorough {
+							probe(si, "GET", 0, targets[0], false, dl)
+						}
+					}
 				}
 				for ti, target := range targets {
 					for _, method := range []string{"GET", "POST", "PUT"} {
@@ -1273,16 +1681,23 @@ func TestVerif_C06(t *testing.T) {
 							if thorough && ti > 0 && !o.core {
 								continue
 							}
-							probe(si, method, oi, target, false)
+							probe(si, method, oi, target, false, 0)
 						}
 					}
 				}
 			}
 			// the route's own credential, where the harness can produce it
+			if key == "runtimeState.idpOpenIDCTokenHandler" && p.oidcCode != "" {
+				for _, method := range []string{"GET", "POST", "PUT"} {
+					for _, oi := range []int{0, 3} {
+						probe(0, method, oi, "alice", true, 0)
+					}
+				}
+			}
 			if key == "runtimeState.requestAwsRoleCertificateHandler" {
 				for _, method := range []string{"GET", "POST", "PUT"} {
 					for _, oi := range []int{0, 3} {
-						probe(0, method, oi, "alice", true)
+						probe(0, method, oi, "alice", true, 0)
 					}
 				}
 			}
@@ -1292,7 +1707,7 @@ func TestVerif_C06(t *testing.T) {
 				if n > 3000 {
 					n = 3000
 				}
-				groups = append(groups, fmt.Sprintf("Definition rv_%d := Eval vm_compute in route_chunk shapes now %d %s %d [\n %s]%%uint63.\n",
+				groups = append(groups, fmt.Sprintf("Definition rv_%d := Eval vm_compute in route_chunk shapes denies now %d %s %d [\n %s]%%uint63.\n",
 					len(groups), groupOffset, coqStringLit(key), p.webui, strings.Join(cases[:n], ";")))
 				groupOffset += n
 				cases = cases[n:]
@@ -1337,13 +1752,20 @@ func TestVerif_C06(t *testing.T) {
 	sb.WriteString("From KM Require Import Base.Cases Model.Auth Model.AuthGate Model.Routes Model.RouteCases.\nOpen Scope N_scope.\n")
 	sb.WriteString(fmt.Sprintf("Definition now : Z := %s.\n", coqZ(now)))
 	sb.WriteString("Definition shapes : list shape_t := [\n " + strings.Join(shapeCoq, ";\n ") + "].\n")
+	var denyCoq []string
+	for _, d := range denies {
+		denyCoq = append(denyCoq, d.coq()+" (* "+d.name+" *)")
+	}
+	sb.WriteString("Definition denies : list (list N) := [\n " + strings.Join(denyCoq, ";\n ") + "].\n")
+	sb.WriteString("Definition webui_cases : list (list N * N) := [\n " + strings.Join(webuiCases, ";\n ") + "].\n")
+	sb.WriteString("Definition c06_webui_mismatches := Eval vm_compute in mismatches webui_bad webui_cases.\nPrint c06_webui_mismatches.\n")
 	var gchunks, rchunks []string
 	for i := 0; i < len(gateCases); i += 3000 {
 		j := i + 3000
 		if j > len(gateCases) {
 			j = len(gateCases)
 		}
-		sb.WriteString(fmt.Sprintf("Definition gv_%d := Eval vm_compute in gate_chunk shapes now %d [\n %s]%%uint63.\n", i/3000, i, strings.Join(gateCases[i:j], ";")))
+		sb.WriteString(fmt.Sprintf("Definition gv_%d := Eval vm_compute in gate_chunk shapes denies now %d [\n %s]%%uint63.\n", i/3000, i, strings.Join(gateCases[i:j], ";")))
 		gchunks = append(gchunks, fmt.Sprintf("gv_%d", i/3000))
 	}
 	sb.WriteString("Definition gate_result := Eval vm_compute in merge_chunks [" + strings.Join(gchunks, "; ") + "].\n")
@@ -1362,6 +1784,7 @@ func TestVerif_C06(t *testing.T) {
 	}
 	ioutil.WriteFile(filepath.Join(verifOut(), "CasesC06_gate.idx"), []byte(strings.Join(gateIdx, "\n")), 0644)
 	ioutil.WriteFile(filepath.Join(verifOut(), "CasesC06_route.idx"), []byte(strings.Join(routeIdx, "\n")), 0644)
+	ioutil.WriteFile(filepath.Join(verifOut(), "CasesC06_webui.idx"), []byte(strings.Join(webuiCases, "\n")), 0644)
 	res.sample(map[string]interface{}{"route": "/api/v0/manageU2FToken", "credential": "cookie-alice-password+u2f", "method": "GET", "referer": "https://evil.example.net/x.html", "expected": "no effect"})
 	res.sample(map[string]interface{}{"route": "/v1/refreshRoleRequestingCert", "credential": "cert-ip-loopback-xff", "method": "POST", "expected": "refused"})
 	if len(routeIdx) > 10 {
@@ -1370,6 +1793,8 @@ func TestVerif_C06(t *testing.T) {
 	}
 	res.Extra["real_tls"] = realTLSLog
 	res.Extra["shapes"] = len(shapeCoq)
+	res.Extra["deny_lists"] = len(denies)
+	res.Extra["webui_backend_lists"] = len(webuiCases)
 	res.Extra["route_probes"] = nRoute
 	res.Extra["gate_calls"] = len(gateCases)
 	res.write(t, "TestVerif_C06")
@@ -1423,6 +1848,50 @@ func (w *c06Writer) Write(b []byte) (int, error) {
 	return w.ResponseRecorder.Write(b)
 }
 
+// getRequiredWebUIAuthLevel() for a backend list, as a case for the model's webui_level
+var c06BackendNames = []string{proto.AuthTypePassword, proto.AuthTypeFederated, proto.AuthTypeU2F, proto.AuthTypeSymantecVIP, proto.AuthTypeTOTP, proto.AuthTypeOkta2FA, proto.AuthTypeBootstrapOTP}
+
+func c06WebUICase(backends []string, level int) string {
+	var ids []string
+	for _, b := range backends {
+		id := 7
+		for i, n := range c06BackendNames {
+			if n == b {
+				id = i
+			}
+		}
+		ids = append(ids, fmt.Sprint(id))
+	}
+	return fmt.Sprintf("([%s], %d)", strings.Join(ids, "; "), level)
+}
+
+// every subset of the seven backend names (in list order), plus repetitions, other orders and
+// names the function does not know
+func c06WebUISweep(st *RuntimeState) []string {
+	saved := st.Config.Base.AllowedAuthBackendsForWebUI
+	defer func() { st.Config.Base.AllowedAuthBackendsForWebUI = saved }()
+	var out []string
+	try := func(l []string) {
+		st.Config.Base.AllowedAuthBackendsForWebUI = l
+		out = append(out, c06WebUICase(l, st.getRequiredWebUIAuthLevel()))
+	}
+	for bits := 0; bits < 1<<uint(len(c06BackendNames)); bits++ {
+		var l []string
+		for i, n := range c06BackendNames {
+			if bits&(1<<uint(i)) != 0 {
+				l = append(l, n)
+			}
+		}
+		try(l)
+	}
+	try([]string{"U2F", "U2F"})
+	try([]string{"TOTP", "U2F", "TOTP"})
+	try([]string{"Password"})
+	try([]string{"u2f", "PASSWORD", "x509", proto.AuthTypeIPCertificate, "FIDO2", ""})
+	try([]string{proto.AuthTypeIPCertificate, "U2F"})
+	return out
+}
+
 func c06GateCases(p *c06Prober, thorough bool, cases, idx *[]string) {
 	st := p.env.state
 	hitCount := map[string]int{}
@@ -1436,9 +1905,94 @@ func c06GateCases(p *c06Prober, thorough bool, cases, idx *[]string) {
 		}
 	}
 	n := 0
+	call := func(si, mask int, method string, oi, dl int) {
+		s := &p.shapes[si]
+		o := c06Origins[oi]
+		d := &p.denies[dl]
+		p.setDeny(dl)
+		sclass := s.classFor(d)
+		req := verifNewRequest(method, "/probe", nil)
+		if o.origin != "" {
+			req.Header.Set("Origin", o.origin)
+		}
+		if o.referer != "" {
+			req.Header.Set("Referer", o.referer)
+		}
+		s.apply(req)
+		oc := c06OriginClass(o.origin, o.referer, req.Host)
+		w := &c06Writer{ResponseRecorder: httptest.NewRecorder()}
+		ai, err := st.checkAuth(w, req, mask)
+		p.setDeny(0)
+		adm, user, level, code, iat := 0, 0, 0, 0, int64(0)
+		if err == nil && ai != nil {
+			adm, user, level, iat = 1, c06User(ai.Username), ai.AuthType, ai.IssuedAt.Unix()
+		} else if w.wrote {
+			code = w.code
+		}
+		p.res.eval(fmt.Sprintf("gate|%s|%d|%s|%s|%s|%d|%d|%d|%d", s.name, mask, method, o.name, d.name, adm, user, level, code), adm == 1)
+		p.res.bump("gate-call")
+		if dl != 0 {
+			p.res.bump("gate-call-deny-list")
+		}
+		if s.combo {
+			p.res.bump("gate-call-combination")
+		}
+		// oracle: admitted => some valid credential establishes that user with a level inside the mask
+		if adm == 1 {
+			ok := false
+			for _, ul := range s.establishes(mask, d) {
+				if c06User(ul[0].(string)) == user && ul[1].(int) == level && level&mask != 0 {
+					ok = true
+				}
+			}
+			if method != "GET" && oc != c06NoOrigin && oc != c06Same {
+				ok = false
+			}
+			if !ok {
+				hitCount[sclass]++
+			}
+			if !ok && hitCount[sclass] <= 2 {
+				p.res.hit(verifHit{Key: fmt.Sprintf("C06:gate-admits:%s", sclass), Oracle: "checkAuth admits an identity / level that no valid credential of a requested kind establishes",
+					What:     fmt.Sprintf("checkAuth(mask=%d) %s origin=%q referer=%q credential %s, deny list %s %v (presented key %d) -> user %q level %d", mask, method, o.origin, o.referer, s.name, d.name, d.ids, s.keyID, ai.Username, level),
+					Case:     map[string]interface{}{"credential": s.name, "mask": mask, "method": method, "origin": o.origin, "referer": o.referer, "deny_list": d.name, "deny_list_keys": d.ids, "presented_key": s.keyID},
+					Observed: map[string]interface{}{"user": ai.Username, "level": level}})
+			}
+		}
+		dt := iat - p.mat.now
+		if adm == 0 || dt < -16000 || dt > 16000 {
+			dt = 16383 // not compared
+		}
+		*cases = append(*cases, fmt.Sprintf("(%d,%d)", c06Pack([][2]int{{si, 10}, {c06MethN(method), 2}, {oc, 2}, {mask, 16}, {adm, 1}, {user, 8}, {dl, 6}}),
+			c06Pack([][2]int{{level, 16}, {code, 10}, {int(dt + 16384), 16}})))
+		*idx = append(*idx, fmt.Sprintf("%d\tcheckAuth mask=%d %s cred=%s origin=%q referer=%q deny-list=%s%v -> admitted=%d user=%d level=%d code=%d", n, mask, method, s.name, o.origin, o.referer, d.name, d.ids, adm, user, level, code))
+		n++
+	}
+	comboMasks := []int{0, p.webui, p.webui | AuthTypeKeymasterX509, AuthTypeAny, AuthTypeIPCertificate, AuthTypeKeymasterX509, AuthTypePassword,
+		AuthTypePassword | AuthTypeKeymasterX509, AuthTypeU2F, AuthTypeU2F | AuthTypeIPCertificate, AuthTypeAny &^ AuthTypeKeymasterX509, AuthTypeTOTP | AuthTypeFederated}
+	denyMasks := []int{AuthTypeKeymasterX509, p.webui | AuthTypeKeymasterX509, AuthTypeAny, AuthTypeIPCertificate | AuthTypeKeymasterX509, AuthTypePassword | AuthTypeKeymasterX509}
 	for si := range p.shapes {
 		s := &p.shapes[si]
 		if s.formLogin {
+			continue
+		}
+		if s.combo {
+			ms := comboMasks
+			if thorough {
+				ms = masks
+			}
+			for _, mask := range ms {
+				call(si, mask, "GET", 0, 0)
+				call(si, mask, "POST", 0, 0)
+				call(si, mask, "POST", 3, 0)
+			}
+			if p.denySweeps && s.hasTLS && s.kmCert && (thorough || s.cookieValid) {
+				// a few combinations under the deny lists too
+				for dl := 1; dl < len(p.denies); dl++ {
+					if thorough || dl%4 == 1 {
+						call(si, p.webui|AuthTypeKeymasterX509, "GET", 0, dl)
+					}
+				}
+			}
 			continue
 		}
 		for _, mask := range masks {
@@ -1449,54 +2003,18 @@ func c06GateCases(p *c06Prober, thorough bool, cases, idx *[]string) {
 					if !full && !reduced {
 						continue
 					}
-					req := verifNewRequest(method, "/probe", nil)
-					if o.origin != "" {
-						req.Header.Set("Origin", o.origin)
+					call(si, mask, method, oi, 0)
+				}
+			}
+		}
+		if p.denySweeps && (s.denySweep || (s.hasTLS && s.kmCert)) {
+			// every deny list of the enumeration (length 0..4, the presented key at every position)
+			for dl := 1; dl < len(p.denies); dl++ {
+				for _, mask := range denyMasks {
+					if !s.denySweep && !thorough && mask != AuthTypeKeymasterX509 {
+						continue
 					}
-					if o.referer != "" {
-						req.Header.Set("Referer", o.referer)
-					}
-					s.apply(req)
-					oc := c06OriginClass(o.origin, o.referer, req.Host)
-					w := &c06Writer{ResponseRecorder: httptest.NewRecorder()}
-					ai, err := st.checkAuth(w, req, mask)
-					adm, user, level, code, iat := 0, 0, 0, 0, int64(0)
-					if err == nil && ai != nil {
-						adm, user, level, iat = 1, c06User(ai.Username), ai.AuthType, ai.IssuedAt.Unix()
-					} else if w.wrote {
-						code = w.code
-					}
-					p.res.eval(fmt.Sprintf("gate|%s|%d|%s|%s|%d|%d|%d|%d", s.name, mask, method, o.name, adm, user, level, code), adm == 1)
-					p.res.bump("gate-call")
-					// oracle: admitted => some valid credential establishes that user with a level inside the mask
-					if adm == 1 {
-						ok := false
-						for _, ul := range s.establishes(mask) {
-							if c06User(ul[0].(string)) == user && ul[1].(int) == level && level&mask != 0 {
-								ok = true
-							}
-						}
-						if method != "GET" && oc != c06NoOrigin && oc != c06Same {
-							ok = false
-						}
-						if !ok {
-							hitCount[s.class]++
-						}
-						if !ok && hitCount[s.class] <= 2 {
-							p.res.hit(verifHit{Key: fmt.Sprintf("C06:gate-admits:%s", s.class), Oracle: "checkAuth admits an identity / level that no valid credential of a requested kind establishes",
-								What:     fmt.Sprintf("checkAuth(mask=%d) %s origin=%q referer=%q credential %s -> user %q level %d", mask, method, o.origin, o.referer, s.name, ai.Username, level),
-								Case:     map[string]interface{}{"credential": s.name, "mask": mask, "method": method, "origin": o.origin, "referer": o.referer},
-								Observed: map[string]interface{}{"user": ai.Username, "level": level}})
-						}
-					}
-					d := iat - p.mat.now
-					if adm == 0 || d < -16000 || d > 16000 {
-						d = 16383 // not compared
-					}
-					*cases = append(*cases, fmt.Sprintf("(%d,%d)", c06Pack([][2]int{{si, 8}, {c06MethN(method), 2}, {oc, 2}, {mask, 16}, {adm, 1}, {user, 8}}),
-						c06Pack([][2]int{{level, 16}, {code, 10}, {int(d + 16384), 16}})))
-					*idx = append(*idx, fmt.Sprintf("%d\tcheckAuth mask=%d %s cred=%s origin=%q referer=%q -> admitted=%d user=%d level=%d code=%d", n, mask, method, s.name, o.origin, o.referer, adm, user, level, code))
-					n++
+					call(si, mask, "GET", 0, dl)
 				}
 			}
 		}
@@ -1605,7 +2123,7 @@ func c06RealTLS(p *c06Prober, hit func(verifHit)) {
 					ro.effects |= c06EffChange
 					p.restoreTables()
 				}
-				if p.mapsDigest() != before {
+				if c06Started(before, p.mapsDigest()) {
 					ro.effects |= c06EffStart
 				}
 				p.resetMaps()
@@ -1661,3 +2179,75 @@ func c06OktaHandler(f *c06Fakes) http.Handler {
 }
 
 var _ = tls.VersionTLS12
+
+// ---------------------------------------------------------------- genuine second-factor material
+
+const c06WAChallenge = "dmVyaWYtd2ViYXV0aG4tY2hhbGxlbmdlLTAxMjM0NTY3"
+
+// a WebAuthn registration ("none" attestation) the software token gives for the pending session
+func c06WebauthnCreate(d *verifU2FDevice, challenge, rpID, origin string) []byte {
+	clientData, _ := json.Marshal(map[string]string{"type": "webauthn.create", "challenge": challenge, "origin": origin})
+	credID := make([]byte, 16)
+	rand.Read(credID)
+	x := d.key.PublicKey.X.FillBytes(make([]byte, 32))
+	y := d.key.PublicKey.Y.FillBytes(make([]byte, 32))
+	cose, err := cbor.Marshal(map[int]interface{}{1: 2, 3: -7, -1: 1, -2: x, -3: y})
+	if err != nil {
+		panic(err)
+	}
+	rp := sha256.Sum256([]byte(rpID))
+	ad := append([]byte{}, rp[:]...)
+	ad = append(ad, 0x41)       // user present + attested credential data
+	ad = append(ad, 0, 0, 0, 0) // signature counter
+	ad = append(ad, make([]byte, 16)...)
+	ad = append(ad, byte(len(credID)>>8), byte(len(credID)))
+	ad = append(ad, credID...)
+	ad = append(ad, cose...)
+	att, err := cbor.Marshal(map[string]interface{}{"fmt": "none", "attStmt": map[string]interface{}{}, "authData": ad})
+	if err != nil {
+		panic(err)
+	}
+	id := base64.RawURLEncoding.EncodeToString(credID)
+	body, _ := json.Marshal(map[string]interface{}{"id": id, "rawId": id, "type": "public-key",
+		"response": map[string]string{"attestationObject": base64.RawURLEncoding.EncodeToString(att), "clientDataJSON": base64.RawURLEncoding.EncodeToString(clientData)}})
+	return body
+}
+
+// the answer of the software token to a U2F sign challenge (FIDO U2F raw message formats, section 5)
+func c06U2FSignResponse(d *verifU2FDevice, c *u2f.Challenge, origin string) []byte {
+	if c == nil {
+		return []byte("{}")
+	}
+	d.counter++
+	clientData, _ := json.Marshal(u2f.ClientData{Typ: "navigator.id.getAssertion", Challenge: b64u(c.Challenge), Origin: origin})
+	app := sha256.Sum256([]byte(c.AppID))
+	chal := sha256.Sum256(clientData)
+	ctr := []byte{byte(d.counter >> 24), byte(d.counter >> 16), byte(d.counter >> 8), byte(d.counter)}
+	msg := append([]byte{}, app[:]...)
+	msg = append(msg, 1)
+	msg = append(msg, ctr...)
+	msg = append(msg, chal[:]...)
+	sigData := append([]byte{1}, ctr...)
+	sigData = append(sigData, d.sign(msg)...)
+	out, _ := json.Marshal(u2f.SignResponse{KeyHandle: b64u(d.keyHandle), SignatureData: b64u(sigData), ClientData: b64u(clientData)})
+	return out
+}
+
+// an authorization code as the authorization endpoint hands it to alice's hardware-token session
+func c06AuthorizationCode(p *c06Prober) string {
+	form := url.Values{}
+	form.Set("response_type", "code")
+	form.Set("client_id", "app")
+	form.Set("scope", "openid")
+	form.Set("redirect_uri", "https://app.example.com/cb")
+	form.Set("state", "xyz")
+	req := verifNewRequest("POST", idpOpenIDCAuthorizationPath, form)
+	req.AddCookie(p.env.cookie("alice", AuthTypePassword|AuthTypeU2F))
+	rr := httptest.NewRecorder()
+	p.handler.ServeHTTP(rr, req)
+	loc, err := url.Parse(rr.Header().Get("Location"))
+	if err != nil {
+		return ""
+	}
+	return loc.Query().Get("code")
+}
